@@ -24,7 +24,7 @@ const c16Parts = 16
 func (e *C16) ID() string    { return "C16" }
 func (e *C16) Level() string { return "exploration" }
 func (e *C16) Rule() string {
-	return "jobs, each split in 16 parts: (1) MessagePack on every generated type (MarshalMsg/UnmarshalMsg, EncodeMsg/DecodeMsg, Msgsize >= encoded length, no left-over bytes): all 2^8 / 2^16 values of the 8/16-bit types (ImageType, FlashMode, MeteringMode, ExposureMode, ExposureProgram, Flash, Orientation, Compression, ExposureBias, the eight Canon int16 enums), grids plus random bit patterns for the float32 types, Dimensions, Ahash, PHash64, PHash256, FocusDistance; (2) text and encoding/json (value alone and inside a struct) for ImageType, MeteringMode (text and JSON number), ExposureMode, ExposureProgram, ExposureBias (all 65536 encodings), Aperture, FocalLength, ExposureTime, UUID (canonical, hash-like, braced, URN forms x case), hash Encode/Decode with exact-size buffers, UUID binary; (3) totality: every decoder with an error result (text, JSON, binary, msgp) fed empty, one-byte, truncated-valid, mutated-valid and random input plus the strings m, /, 1/0, +, -/, mm and numbers at the width boundaries of the integer types (255/256, 65535/65536/131072, 2^31, 2^32, 2^63, 2^64, 2^128) alone, as either half of a fraction, as decimals and with unit suffixes. Oracle: Unmarshal(Marshal(v)) == v for valid v (documented enum members, numbers representable at the textual precision, every value for binary forms); Marshal(Unmarshal(Marshal(v))) == Marshal(v) for every v whose encoding the decoder accepts; no panic. Distinct = (type, form, encoded length and leading byte for MessagePack / text length and validity class for text), a measured count of distinct encodings shapes, plus one per job part."
+	return "jobs, each split in 16 parts: (1) MessagePack on every generated type (MarshalMsg/UnmarshalMsg, EncodeMsg/DecodeMsg, Msgsize >= encoded length, no left-over bytes): all 2^8 / 2^16 values of the 8/16-bit types (ImageType, FlashMode, MeteringMode, ExposureMode, ExposureProgram, Flash, Orientation, Compression, ExposureBias, the eight Canon int16 enums), grids plus random bit patterns for the float32 types, Dimensions, Ahash, PHash64, PHash256, FocusDistance; (2) text and encoding/json (value alone and inside a struct) for ImageType, MeteringMode (text and JSON number), ExposureMode, ExposureProgram, ExposureBias (all 65536 encodings), Aperture, FocalLength, ExposureTime, UUID (canonical, hash-like, braced, URN forms x case), hash Encode/Decode with exact-size buffers, UUID binary; every JSON decode is repeated into a target that already holds the previous valid value, and the encoding of the zero value is decoded into a target that holds v (a reused struct must not show what it held); (3) totality: every decoder with an error result (text, JSON, binary, msgp) fed empty, one-byte, truncated-valid, mutated-valid and random input plus the strings m, /, 1/0, +, -/, mm and numbers at the width boundaries of the integer types (255/256, 65535/65536/131072, 2^31, 2^32, 2^63, 2^64, 2^128) alone, as either half of a fraction, as decimals and with unit suffixes. Oracle: Unmarshal(Marshal(v)) == v for valid v (documented enum members, numbers representable at the textual precision, every value for binary forms); Marshal(Unmarshal(Marshal(v))) == Marshal(v) for every v whose encoding the decoder accepts; no panic. Distinct = (type, form, encoded length and leading byte for MessagePack / text length and validity class for text), a measured count of distinct encodings shapes, plus one per job part."
 }
 func (e *C16) Assumptions() []string {
 	return []string{"valid values: documented enum members; Aperture/FocalLength multiples of 0.01 below 10000; ExposureTime 1/n for integer n and x.xx >= 1; all 65536 ExposureBias encodings",
@@ -149,7 +149,14 @@ type textCodec[T comparable] struct {
 	enc   func(T) ([]byte, error)
 	dec   func([]byte) (T, error)
 	jsonV bool // the type round-trips through encoding/json via these methods
+	// decInto decodes into a target that already holds another value (a reused struct): what was
+	// there must not show through
+	decInto func(b []byte, preset T) (T, error)
 }
+
+// c16prev remembers, per codec, the last valid value seen: the preset of the next dirty-target decode.
+var c16prev = map[string]any{}
+var c16cnt = map[string]int{}
 
 // textRT checks one value. valid: Unmarshal(Marshal(v)) must be v. Always: idempotence when accepted.
 func textRT[T comparable](c *core.Ctx, tc textCodec[T], v T, valid bool) {
@@ -165,6 +172,30 @@ func textRT[T comparable](c *core.Ctx, tc textCodec[T], v T, valid bool) {
 		if valid && (err != nil || out != v) {
 			c16viol(c, "text:roundtrip:"+tc.typ, fmt.Sprintf("%s: decode(encode(%v)=%q) = %v err %v", tc.typ, v, b, out, err))
 			return
+		}
+		if tc.decInto != nil && err == nil {
+			if pv, ok := c16prev[tc.typ]; ok {
+				out2, err2 := tc.decInto(b, pv.(T))
+				if err2 != nil || out2 != out {
+					c16viol(c, "text:dirty-target:"+tc.typ, fmt.Sprintf("%s: %q decodes to %v into a zero target and to %v (err %v) into a target that held %v", tc.typ, b, out, out2, err2, pv))
+				}
+			}
+			if valid {
+				c16prev[tc.typ] = v
+				// and the encoding of the zero value into a target that holds v (every 8th value):
+				// "nothing to report" must still overwrite
+				c16cnt[tc.typ]++
+				var z T
+				if c16cnt[tc.typ]%8 == 1 && v != z {
+					if bz, ez := tc.enc(z); ez == nil {
+						if o0, e0 := tc.dec(bz); e0 == nil {
+							if o1, e1 := tc.decInto(bz, v); e1 != nil || o1 != o0 {
+								c16viol(c, "text:dirty-target:"+tc.typ, fmt.Sprintf("%s: %q (the zero value) decodes to %v into a zero target and to %v (err %v) into a target that held %v", tc.typ, bz, o0, o1, e1, v))
+							}
+						}
+					}
+				}
+			}
 		}
 		if err == nil {
 			b2, err2 := tc.enc(out)
@@ -191,6 +222,10 @@ func jsonCodec[T comparable](typ string) textCodec[T] {
 		var o T
 		err := json.Unmarshal(b, &o)
 		return o, err
+	}, decInto: func(b []byte, preset T) (T, error) {
+		o := preset
+		err := json.Unmarshal(b, &o)
+		return o, err
 	}}
 }
 
@@ -202,6 +237,10 @@ func jsonStructCodec[T comparable](typ string) textCodec[T] {
 	}
 	return textCodec[T]{typ: typ + "/json-struct", enc: func(v T) ([]byte, error) { return json.Marshal(wrap{7, v, "x"}) }, dec: func(b []byte) (T, error) {
 		var o wrap
+		err := json.Unmarshal(b, &o)
+		return o.V, err
+	}, decInto: func(b []byte, preset T) (T, error) {
+		o := wrap{1, preset, "y"}
 		err := json.Unmarshal(b, &o)
 		return o.V, err
 	}}
